@@ -239,11 +239,15 @@ func runMutants(o *Options, ms []Mutant, par int) []mutantResult {
 			m := ms[i]
 			out := mutantResult{Name: m.Name, Kind: m.Kind, Expect: m.Expect, Desc: m.Desc}
 			defer func() { res[i] = out }()
-			if strings.HasPrefix(m.File, "@rename ") {
-				// type-resolved rename: delegated to the sub-process (-rename)
+			if strings.HasPrefix(m.File, "@rename ") || strings.HasPrefix(m.File, "@transform ") {
+				// type-resolved rename / whole-module rewrite: delegated to the sub-process
 				args := []string{"-prop", o.Prop, "-tier", "quick", "-repo", o.Repo, "-known", o.Known}
-				for _, spec := range strings.Fields(strings.TrimPrefix(m.File, "@rename ")) {
-					args = append(args, "-rename", spec)
+				if strings.HasPrefix(m.File, "@transform ") {
+					args = append(args, "-transform", strings.TrimSpace(strings.TrimPrefix(m.File, "@transform ")))
+				} else {
+					for _, spec := range strings.Fields(strings.TrimPrefix(m.File, "@rename ")) {
+						args = append(args, "-rename", spec)
+					}
 				}
 				ev := filepath.Join(tmp, fmt.Sprintf("ev%d", i), o.Prop+".json")
 				args = append(args, "-evidence", ev)
